@@ -381,7 +381,7 @@ func runJob(w *Workload, j job, b Budget, rng *rand.Rand, st *Stats, report func
 						v += " [tree fsynced ahead of the tx log before the first crash, rewound in memory only]"
 					}
 					if strings.Contains(v, "could not open aht: ahtree:") && (strings.Contains(v, "data log is corrupted") || strings.Contains(v, "hash log is corrupted")) &&
-						ahtEntries(j.img) > res.Cid0+res.Reloaded && ahtLogsRewound(evs2[:p]) {
+						ahtEntries(j.img) > res.Cid0 && ahtLogsRewound(evs2[:p]) { // OpenWith resets the tree to the COMMITTED id
 						v += tagTreeCut
 					}
 					report("after a second crash: "+annotate(v, w.Cfg, img, final2), fmt.Sprintf("%s >> recovery+%d fresh commit(s) >> point2=%d(after %s %s) image2=%s acked<=%d",
